@@ -185,6 +185,7 @@ def run(out):
             ms.update(m[::4] if quick else m)
             ms.update(_prefixes(d))
         work.append(('document-mutations-' + lang, lang, sorted(ms)))
+    _model_comparison(out, quick)
     tid = 0
     alltraces = []
     for name, lang, strings in work:
@@ -219,6 +220,88 @@ def run(out):
             out.violation('%s: %s' % (c['fn'], v[2]), {'source': t['src'], 'fn': c['fn'], 'pos': c['pos'], 'ranges': c['r'],
                                                       'delimiters': c['dl'], 'names': c['names'], 'exception': c.get('exception'),
                                                       'site': list(c['site']) if c.get('site') else None})
+
+
+# ---------------------------------------------------------------------------------------------------------------------
+# model of the HTML matcher (HtmlScan.tla / HtmlScanMC.tla): TLC checks the C16 invariants on the transcription for every
+# string of the instance and prints events, attributes and the three answers at every position; they are compared with the code
+
+SCAN_CHARS = {"<", ">", "/", "=", "DQ", "'", "BS", "!", "-", "?", "[", "]", "a", " ", "NL", "{", "}", "*", "#", "."}
+SCAN_FRAGS = {"<a", "<br", "<b>", "</b>", "</a>", ">", "/>", " x=", "DQ", "'", "y", "<!--", "-->", "<script", "</script>", "<style>", "</style>",
+              " ", " type=", "text/x", "<![CDATA[", "]]>", "<?", "?>", "{", "}", "BS", "/", "<", "=", "NL", "(", ")", "[", "]", "*n", "#r", "a:b-c.d_"}
+
+
+def _tag(t):
+    return None if t is None else [t.name, t.open[0], t.open[1]] + (list(t.close) if t.close else [-1, -1])
+
+
+def _mtag(t):
+    return [t['n'], t['os'], t['oe'], t['cs'], t['ce']]
+
+
+def _model_chunk(vecs):
+    from emmet import html_matcher as hm
+    from emmet.html_matcher.scan import scan as hscan
+    diff = []
+    for v in vecs:
+        src = v['s']
+        try:
+            evs = []
+            hscan(src, lambda n, t, s, e: evs.append([n, t, s, e]) or None, hm.ScannerOptions().special)
+            if evs != [[e['n'], e['ty'], e['s'], e['e']] for e in v['evs']]:
+                diff.append(('scan events', src))
+                continue
+            at = [[a.name, a.name_start, a.name_end, a.value if a.value is not None else '<none>',
+                   a.value_start if a.value is not None else -1, a.value_end if a.value is not None else -1] for a in hm.attributes(src)]
+            if at != [[a['n'], a['ns'], a['ne'], a['v'], a['vs'], a['ve']] for a in v['attrs']]:
+                diff.append(('attributes', src))
+                continue
+            for k, row in enumerate(v['at']):
+                pos = k - 1
+                for key, xml in (('h', False), ('x', True)):
+                    opt = {'xml': xml}
+                    exp = row[key]
+                    m = _tag(hm.match(src, pos, opt))
+                    if (m is None) != (not exp['m']) or (m is not None and m != _mtag(exp['m'][0])):
+                        diff.append(('match', src))
+                    if [_tag(t) for t in hm.balanced_outward(src, pos, opt)] != [_mtag(t) for t in exp['o']]:
+                        diff.append(('balanced_outward', src))
+                    if [_tag(t) for t in hm.balanced_inward(src, pos, opt)] != [_mtag(t) for t in exp['i']]:
+                        diff.append(('balanced_inward', src))
+        except Exception as ex:
+            diff.append(('code raised %s' % type(ex).__name__, src))
+    return diff
+
+
+def _model_comparison(out, quick):
+    insts = [('html-model-characters', 'HtmlScanMC', dict(constants={'Frags': SCAN_CHARS, 'MaxFrag': 3 if quick else 4})),
+             ('html-model-fragments', 'HtmlScanMC', dict(constants={'Frags': SCAN_FRAGS, 'MaxFrag': 2 if quick else 3})),
+             ('html-model-fragments-simulated', 'HtmlScanMC', dict(constants={'Frags': SCAN_FRAGS, 'MaxFrag': 9},
+                                                                  simulate=4 if quick else 60, depth=10, seed=out.seed + 5))]
+    for name, module, kw in insts:
+        r = common.run_tlc(module, timeout=3000, heap='12g', **kw)
+        if r.violated:
+            out.add_tlc(name, r)
+            out.violation('spec-invariant %s violated in the matcher model' % r.violated, {'instance': name, 'tlc': r.error[:2000]})
+            continue
+        vecs = {}
+        for v in r.vectors():
+            vecs.setdefault(v['s'], v)
+        r.tagged = {}
+        vecs = list(vecs.values())
+        if r.mode == 'simulate':
+            vecs = common.sample(vecs, 2500 if quick else 60000, out.seed, key=lambda v: v['s'])
+        elif out.exhaustive is not None:
+            out.exhaustive = out.exhaustive and r.exhaustive
+        diff = common.pool_map(_model_chunk, vecs, chunk=500)
+        fam = {}
+        for what, src in diff:
+            fam.setdefault(what, set()).add(src)
+        out.add_tlc(name, r, strings=len(vecs), with_tags=sum(1 for v in vecs if v['evs']),
+                    model_differs_from_code={k: {'count': len(v), 'examples': sorted(v, key=len)[:5]} for k, v in fam.items()})
+        out.evaluations += sum((len(v['s']) + 3) * 6 + 2 for v in vecs)
+        for k, v in fam.items():
+            out.diag('model-vs-code: ' + k, len(v))
 
 
 def replay(case):
